@@ -11,7 +11,7 @@ LV=/tmp/verif-lane-$LANE
 R=$OUT/$ID-$VAR
 log() { echo "[$ID-$VAR] $*" >> $R.log; }
 : > $R.log
-git -C $WT checkout -q -- . ; git -C $WT clean -fdq
+git -C $WT checkout -q -- . ; git -C $WT clean -fdq; git -C $WT checkout -q --detach $(git -C /repo rev-parse HEAD)
 if ! git -C $WT apply --check $S/patch.diff 2>>$R.log; then echo "{\"id\":\"$ID\",\"var\":\"$VAR\",\"status\":\"patch-does-not-apply\"}" > $R.json; exit 0; fi
 # demo placement
 DEMO=$(ls $S/*_test.go 2>/dev/null | head -1)
@@ -40,6 +40,6 @@ for C in $ID $EXTRA; do
   res="$res{\"check\":\"$C\",\"rc\":$rc,\"labels\":\"$labs\"},"
   echo "$o" | cut -c1-400 >> $R.log
 done
-git -C $WT checkout -q -- . ; git -C $WT clean -fdq
+git -C $WT checkout -q -- . ; git -C $WT clean -fdq; git -C $WT checkout -q --detach $(git -C /repo rev-parse HEAD)
 echo "{\"id\":\"$ID\",\"var\":\"$VAR\",\"build\":\"$build\",\"demo_on_clean\":\"$demo_clean\",\"demo_with_change\":\"$demo_mut\",\"suite_with_change\":\"$suite\",\"checks\":[${res%,}]}" > $R.json
 cat $R.json
